@@ -35,6 +35,7 @@ THIS SOFTWARE, EVEN IF ADVISED OF THE POSSIBILITY OF SUCH DAMAGE.
 #include <rs_driver/common/rs_common.hpp>
 
 #include <fstream>
+#include <cstring>
 #include <cmath>
 #include <algorithm>
 #include <functional>
@@ -416,7 +417,8 @@ inline bool isCrc32Correct(const uint8_t* pkt, size_t size)
   expected = calcCrc32 (pkt, size - 6, 0/* ignored */, true);
   expected = calcCrc32 (pkt + size - 2, 2, expected, false);
 
-  uint32_t actual = *(uint32_t*)(pkt + size - 6);
+  uint32_t actual;
+  memcpy(&actual, pkt + size - 6, sizeof(actual));  // the field is not 4-byte aligned in general
   actual = htonl(actual);
 
   return (expected == actual);
